@@ -6,6 +6,7 @@ import (
 	"path/filepath"
 	"sort"
 	"strings"
+	"sync"
 	"unicode"
 
 	"github.com/tsawler/tabula"
@@ -32,15 +33,59 @@ import (
 var dbg = os.Getenv("C09_DEBUG")
 
 // chk is c.Check; with C09_DEBUG=<substring> failures of matching keys are also printed.
+//
+// A failed check is not handed to c.Check at once but at the end of the run
+// (flushChecks), in the order of the keys: the report keeps the input of only
+// the first 20 failures of a run (3 per key) and the verdict names the first
+// new key in that order, so recording in page order let the many keys that fail
+// on one page - and the recorded findings of the element tree - use up the room
+// before the named key had kept its failing input. Nothing is dropped: every
+// failure is still counted under its key; what each check returns is unchanged.
 func chk(c *hx.Ctx, key string, ok bool, k interface{}, detail func() string) bool {
-	if !ok && dbg != "" && strings.Contains(key, dbg) {
+	if ok {
+		return c.Check(key, true, k, detail)
+	}
+	if dbg != "" && strings.Contains(key, dbg) {
 		idx := -1
 		if kk, isK := k.(kase); isK {
 			idx = kk.Index
 		}
 		fmt.Fprintf(os.Stderr, "%s #%d %s\n", key, idx, detail())
 	}
-	return c.Check(key, ok, k, detail)
+	pendMu.Lock()
+	defer pendMu.Unlock()
+	pendN[key]++
+	p := pendingFail{key: key}
+	if pendN[key] <= 3 { // c.Check keeps input and detail of the first three per key
+		p.kase, p.detail = k, detail()
+	}
+	pend = append(pend, p)
+	return false
+}
+
+type pendingFail struct {
+	key    string
+	kase   interface{}
+	detail string
+}
+
+var (
+	pendMu sync.Mutex
+	pend   []pendingFail
+	pendN  = map[string]int{}
+)
+
+// flushChecks records the failed checks of the run, sorted by key (stable, so
+// the first three of a key are its first three in page order).
+func flushChecks(c *hx.Ctx) {
+	pendMu.Lock()
+	defer pendMu.Unlock()
+	sort.SliceStable(pend, func(i, j int) bool { return pend[i].key < pend[j].key })
+	for _, p := range pend {
+		d := p.detail
+		c.Check(p.key, false, p.kase, func() string { return d })
+	}
+	pend, pendN = nil, map[string]int{}
 }
 
 type bag map[rune]int
@@ -162,7 +207,7 @@ func checkIDs(c *hx.Ctx, name string, kase interface{}, frs []text.TextFragment,
 		id := fragID(f)
 		switch n := cnt[id]; {
 		case n == 0:
-			lost = append(lost, fmt.Sprintf("%d:%q@(%v,%v)w%v", id, f.Text, f.X, f.Y, f.Width))
+			lost = append(lost, fmt.Sprintf("%d:%q@(%v,%v)w%v,%v", id, f.Text, f.X, f.Y, f.Width, f.Direction))
 		case n > 1:
 			dup = append(dup, fmt.Sprintf("%d:%q x%d", id, f.Text, n))
 		}
